@@ -6,7 +6,8 @@ encoded the way pmuttEncoder/json would (objects via to_dict, tuples as lists,
 ndarrays are not encodable) and decoded bottom-up through the real
 json_to_pmutt / type_to_class / from_dict code.  The decoded object must be of
 the same class and carry the same attributes; the dictionary handed to the
-decoder must be unchanged.
+decoder must be unchanged.  The cycle is repeated on objects that have been
+used (public getters called): histories are part of the quantifier.
 """
 import ast
 import re
@@ -23,6 +24,25 @@ class Problem(Exception):
     pass
 
 
+def call_default(I, v):
+    """pmuttEncoder().default(v), interpreted.  The encoder's base class is json.JSONEncoder, whose default() raises
+    TypeError for every argument; it lies outside the repository.  An interpreter that models the stdlib base returns
+    that TypeError itself; one that does not stops at the super() call with "method default not found in MRO of
+    <the encoder>" - which says that control reached the base class's default, i.e. the same TypeError."""
+    enc_ci = I.repo.module(JSON).classes.get('pmuttEncoder')
+    if enc_ci is None or I.repo.find_method(enc_ci, 'default', missing_ok=True) is None:
+        raise AnchorError('pmuttEncoder.default not found')
+    try:
+        return I.call_method(Obj('encoder', enc_ci), 'default', [v], {})
+    except _RaisedExc as e:
+        return e.raised
+    except AnchorError as e:
+        if 'method default not found in MRO of %s' % enc_ci.qual in str(e) and \
+                any(b_.split('.')[-1] == 'JSONEncoder' for b_ in enc_ci.base_exprs):
+            return Raised('TypeError')
+        raise
+
+
 def encode(I, v, path='$'):
     """model of json.dumps(..., cls=pmuttEncoder) followed by json.loads without hook"""
     if isinstance(v, Obj):
@@ -31,10 +51,7 @@ def encode(I, v, path='$'):
         if I.repo.find_method(v.ci, 'to_dict', missing_ok=True) is None:
             raise Problem('%s: %s has no to_dict (TypeError: not JSON serializable)' % (path, v.ci.qual))
         # json hands every object it cannot write itself to the package's encoder (interpreted)
-        enc_ci = I.repo.module(JSON).classes.get('pmuttEncoder')
-        if enc_ci is None:
-            raise AnchorError('pmuttEncoder not found')
-        d = I.call_method(Obj('encoder', enc_ci), 'default', [v], {})
+        d = call_default(I, v)
         if isinstance(d, Raised):
             raise Problem('%s: encoding %s raises %s' % (path, v.ci.name, d.exc))
         if not isinstance(d, DictV):
@@ -49,6 +66,10 @@ def encode(I, v, path='$'):
         if getattr(v, 'is_array', False):
             raise Problem('%s: a numpy array is left in the dictionary (TypeError: Object of type ndarray is not '
                           'JSON serializable)' % path)
+        if getattr(v, 'np_int', False):
+            # list(arr)/tuple(arr) of an integer array: a Python list of numpy integers (arr.tolist() gives ints)
+            raise Problem('%s: the list holds numpy integers (TypeError: Object of type int64 is not JSON '
+                          'serializable; np.float64 is a float, np.int64 is not an int)' % path)
         return ListV([encode(I, x, '%s[%d]' % (path, i)) for i, x in enumerate(v.items)])
     return v
 
@@ -293,6 +314,13 @@ def builders(I, repo):
         kw.update(extra)
         return new(qual, **kw)
     add('Reaction', lambda: rxn('pmutt.reaction.Reaction'))
+    # the numbers most often given for the kinetic parameters: zero (before the instances with symbolic parameters: a
+    # test on the value of a parameter is decidable here)
+    add('SurfaceReaction[beta and Ea zero]', lambda: rxn('pmutt.omkm.reaction.SurfaceReaction', id='r_0005',
+                                                         is_adsorption=False, A=D.sym('Apre'), beta=C(0), Ea=C(0),
+                                                         direction='cleavage', notes=None))
+    add('ChemkinReaction[beta zero, no adsorption]', lambda: rxn('pmutt.reaction.ChemkinReaction', beta=C(0),
+                                                                 is_adsorption=False, notes=None))
     add('ChemkinReaction', lambda: rxn('pmutt.reaction.ChemkinReaction', beta=D.sym('beta'), is_adsorption=True,
                                        sticking_coeff=D.sym('stick')))
     add('SurfaceReaction', lambda: rxn('pmutt.omkm.reaction.SurfaceReaction', id='r_0001', is_adsorption=False,
@@ -369,12 +397,6 @@ def builders(I, repo):
                                                direction=direction)]))
     add('SurfaceReaction[BEP transition state, cleavage]', lambda: bep_rxn('cleavage', 'r_0003'))
     add('SurfaceReaction[BEP transition state, synthesis]', lambda: bep_rxn('synthesis', 'r_0004'))
-    # the numbers most often given for the kinetic parameters: zero
-    add('SurfaceReaction[beta and Ea zero]', lambda: rxn('pmutt.omkm.reaction.SurfaceReaction', id='r_0005',
-                                                         is_adsorption=False, A=D.sym('Apre'), beta=C(0), Ea=C(0),
-                                                         direction='cleavage', notes=None))
-    add('ChemkinReaction[beta zero, no adsorption]', lambda: rxn('pmutt.reaction.ChemkinReaction', beta=C(0),
-                                                                 is_adsorption=False, notes=None))
 
     # a reaction set with more than one reaction in which species agree in their name and differ elsewhere (water as
     # liquid and as vapour told apart by the phase), species without a name (name=None for every one of them), and a
@@ -388,6 +410,37 @@ def builders(I, repo):
         u1, u2 = statmech(None, tag='u1'), statmech(None, tag='u2')
         return ListV([plain_rxn([wl], [D.sym('nu1')], [wg], [D.sym('nu2')]),
                       plain_rxn([wg, u1], [D.sym('nu3'), D.sym('nu4')], [u2], [D.sym('nu5')])])
+    # options no other instance passes: a model kept inside an empirical species and no catalyst site; a species left
+    # with the constructor's default (shared) empty modes; modes given as classes plus their keyword arguments (what
+    # the presets do); a linear rotor; a point group instead of a symmetry number; an extended relation over numbers
+    add('Nasa[model, no catalyst site]', lambda: new(
+        'pmutt.empirical.nasa.Nasa', name='nasa4', T_low=D.sym('Tl_n4'), T_mid=D.sym('Tm_n4'), T_high=D.sym('Th_n4'),
+        a_low=arr('al_n4', 7), a_high=arr('ah_n4', 7), phase='G', model=statmech('inner')))
+    add('StatMech[default modes]', lambda: new(S + 'StatMech', name='bare', elements=DictV({'H': D.sym('nH_bare')})))
+    add('StatMech[mode classes and their arguments]', lambda: new(
+        S + 'StatMech', name='preset', trans_model=repo.cls(S + 'trans.FreeTrans'), n_degrees=C(3),
+        molecular_weight=D.sym('mw_preset'), elec_model=repo.cls(S + 'elec.GroundStateElec'),
+        potentialenergy=D.sym('E_preset'), spin=D.sym('spin_preset')))
+    add('RigidRotor[linear]', lambda: new(S + 'rot.RigidRotor', symmetrynumber=D.sym('sigma'),
+                                          rot_temperatures=arr('th', 1), geometry='linear'))
+    add('RigidRotor[point group]', lambda: new(S + 'rot.RigidRotor', symmetrynumber='C2v',
+                                               rot_temperatures=arr('th', 3), geometry='nonlinear'))
+    add('ExtendedLSR[numeric reactions, default species]', lambda: new(
+        S + 'lsr.ExtendedLSR', slopes=ListV([D.sym('e0'), D.sym('e1')]), intercept=D.sym('eicpt'),
+        reactions=ListV([D.sym('dE0'), D.sym('dE1')])))
+
+    # stoichiometric coefficients written as integers (2 H2 + O2 -> 2 H2O): the symbols are declared to stand for
+    # Python ints, so that an array made of them has an integer element type and list() of it holds numpy integers
+    def int_rxn(qual, **extra):
+        I.int_syms.update(('nui1', 'nui2', 'nui3', 'nui4'))
+        return rxn(qual, reactants_stoich=ListV([D.sym('nui1'), D.sym('nui2')]),
+                   products_stoich=ListV([D.sym('nui3')]), transition_state_stoich=ListV([D.sym('nui4')]), notes=None,
+                   **extra)
+    add('Reaction[integer stoichiometry]', lambda: int_rxn('pmutt.reaction.Reaction'))
+    add('ChemkinReaction[integer stoichiometry]', lambda: int_rxn('pmutt.reaction.ChemkinReaction',
+                                                                  beta=D.sym('beta'), is_adsorption=False))
+    add('Reactions[integer stoichiometry]',
+        lambda: new('pmutt.reaction.Reactions', reactions=ListV([int_rxn('pmutt.reaction.Reaction')])))
     add('Reactions[two reactions, species sharing a name]',
         lambda: new('pmutt.reaction.Reactions', reactions=shared_names()))
     add('PhaseDiagram[two reactions, species sharing a name]',
@@ -444,19 +497,32 @@ def getter_calls(repo, ci):
 def check(run, repo):
     run.explanation = (
         'Every serialisable class named by the property is instantiated through its real constructor with symbolic '
-        'attribute values (nested: species inside reactions inside reaction sets); the real to_dict is interpreted, the '
-        'result encoded as pmuttEncoder/json would (objects through to_dict, tuples as arrays, numpy arrays are not '
-        'encodable) and decoded bottom-up through the real json_to_pmutt, type_to_class and from_dict code. Decided '
-        'per class: encoding succeeds; the decoded value is an object of the same class (registry entry present, class '
-        'string matches); every attribute of the original equals the decoded one (constructor state written, read back '
-        'under the right key, not re-typed); the dictionary given to the decoder is unchanged; a second encode/decode '
-        'cycle gives the same object.')
+        'attribute values (nested: species inside reactions inside reaction sets; two reactions whose species share a '
+        'name or have none; a reaction registered with the BEP relation that is its transition state; an imaginary '
+        'wavenumber with and without substitute; kinetic parameters that are zero; integer stoichiometry); the real '
+        'to_dict is interpreted, the result encoded as pmuttEncoder/json would (objects through the interpreted '
+        'default(), tuples as arrays, numpy arrays and lists of numpy integers are not encodable) and decoded bottom-up '
+        'through the real json_to_pmutt, type_to_class and from_dict code. Decided per class: encoding succeeds; the '
+        'decoded value is an object of the same class (registry entry present, class string matches); every attribute '
+        'of the original equals the decoded one (constructor state written, read back under the right key, not '
+        're-typed); the dictionary given to the decoder is unchanged; a second encode/decode cycle gives the same '
+        'object. Histories: the same cycle after the public getters of the object have been called (each alone on an '
+        'object of its own, and all of them on one object at two temperatures) - what a getter leaves behind must not '
+        'keep the object from being encoded and decoded, and its public state (public attributes, property values) '
+        'must come back. The encoder is interpreted on objects it cannot serialise: default() must not return.')
     run.assumptions = ['json.dumps/loads modelled structurally: dict/list/str/number/bool/None pass through, tuples '
                        'become lists, any other object goes through pmuttEncoder.default',
-                       'list versus ndarray is not distinguished when comparing attributes']
-    run.undecided = ['JSON float formatting', 'NumPy scalar types inside attributes (np.int64 is not JSON encodable)',
+                       'json.JSONEncoder.default (the base class, outside the repository) raises TypeError',
+                       'list versus ndarray is not distinguished when comparing attributes',
+                       'quick tier: histories for the objects that hold no other pMuTT object (mode models, equations '
+                       'of state, adjustments); thorough tier: for every instance']
+    run.undecided = ['JSON float formatting',
+                     'NumPy integers reached by iterating over or indexing an integer array (list()/tuple() of one is '
+                     'decided); integer constants are not told from floats, the integer instances use declared symbols',
                      'equality of getter values beyond attribute equality (constructors are deterministic by '
-                     'inspection)']
+                     'inspection)',
+                     'histories through getters that need more than T/P/V/n (units, state names), setters, and the '
+                     'mutating methods of reaction sets']
     jm = repo.module(JSON)
     for f in ('json_to_pmutt', 'type_to_class', 'remove_class'):
         if f not in jm.functions:
@@ -624,6 +690,14 @@ def check(run, repo):
         return None
     order_h = RankOrder({'w0': 5, 'w1': 7, 'b1': 3, 'wi': -5, 'wsub': 2, 'T': 300, 'T2': 700, 'P': 1, 'V': 1, 'n': 1,
                          'T9h0': 500, 'T9l1': 500}, const_ranks=True, fallback=hist_rank)
+    def holds_objects(v, top=True):
+        if isinstance(v, Obj):
+            return (not top) or any(holds_objects(x, False) for x in v.attrs.values())
+        if isinstance(v, ListV):
+            return any(holds_objects(x, False) for x in v.items)
+        if isinstance(v, DictV):
+            return any(holds_objects(x, False) for x in v.d.values())
+        return False
     n_hist = 0
     for idx, label in enumerate(labels):
         I = Interp(repo, order=order_h)
@@ -631,29 +705,21 @@ def check(run, repo):
             obj = builders(I, repo)[idx][1]()
         except Problem:
             continue                    # reported above
-        if run.tier != 'thorough' and label != 'Reaction' and \
-                any(k_.qual == 'pmutt.reaction.Reaction' for k_ in obj.ci.mro):
-            continue                    # the 21 getters of every further reaction instance: thorough tier
+        if run.tier != 'thorough' and holds_objects(obj):
+            continue                    # quick tier: the objects that hold no other pMuTT object (mode models,
+            #                             equations of state, adjustments, single polynomials); the rest: thorough
         calls = getter_calls(repo, obj.ci)
-        # (a) each getter alone, on an object of its own: what a single call leaves behind (quick tier: for the
-        # objects that hold no other pMuTT object - the mode models, equations of state, adjustments)
-        def holds_objects(v, top=True):
-            if isinstance(v, Obj):
-                return (not top) or any(holds_objects(x, False) for x in v.attrs.values())
-            if isinstance(v, ListV):
-                return any(holds_objects(x, False) for x in v.items)
-            if isinstance(v, DictV):
-                return any(holds_objects(x, False) for x in v.d.values())
-            return False
-        for nm, give in (calls if run.tier == 'thorough' or not holds_objects(obj) else []):
+        # (a) each getter alone, on an object of its own: what a single call leaves behind
+        for nm, give in calls:
             obj = builders(I, repo)[idx][1]()
             before = fingerprint(obj)
             try:
                 I.call_method(obj, nm, [], {p_: I.D.sym(p_) for p_ in give})
             except _RaisedExc:
                 pass                    # a getter that refuses its arguments is a history step like any other
-            if run.tier != 'thorough' and fingerprint(obj) == before:
+            if fingerprint(obj) == before:
                 # the call left nothing behind in the object: the cycle is the one of the fresh object, done above
+                # (the thorough tier still cycles every object after the whole sequence, (b))
                 run.ok('EFFECT.getter-state', '%s.%s' % (label, nm))
                 continue
             cycle(I, label, obj, hist='%s(%s)' % (nm, ', '.join(give)))
@@ -674,24 +740,29 @@ def check(run, repo):
             else:
                 cycle(I, label, obj, hist='%s, each at T and at T2' % ', '.join(nm for nm, _ in calls))
         n_hist += 1 if calls else 0
-    run.floor('instances with a history', n_hist, 40 if run.tier != 'thorough' else 50)
+    run.floor('instances with a history', n_hist, 18 if run.tier != 'thorough' else 55)
 
-    # encoder: default() must return (or raise) on every path
-    enc_ci = jm.classes.get('pmuttEncoder')
-    if enc_ci is None or 'default' not in enc_ci.methods:
+    # encoder: what json cannot write and the package cannot turn into a dictionary must end in the TypeError of
+    # the base encoder - decided by interpreting default() on such objects, not by the shape of its statements
+    def no_to_dict(I_, o_, a_, k_):
+        raise _RaisedExc(Raised('AttributeError'))
+    Ie = Interp(repo)
+    got_enc = repo.find_method(jm.classes['pmuttEncoder'], 'default', missing_ok=True) if 'pmuttEncoder' in jm.classes \
+        else None
+    if not got_enc:
         raise AnchorError('pmuttEncoder.default not found')
-    fn = enc_ci.methods['default']
     run.fn(JSON + '.pmuttEncoder.default')
-    ok = False
-    for n in ast.walk(fn):
-        if isinstance(n, ast.ExceptHandler):
-            # the fallback must propagate: `return super().default(o)` or a bare call that raises
-            body = n.body
-            ok = any(isinstance(s, ast.Return) or isinstance(s, ast.Raise) or
-                     (isinstance(s, ast.Expr) and isinstance(s.value, ast.Call) and
-                      'default' in ast.unparse(s.value.func)) for s in body)
-    run.check(ok, 'PATH.encoder', 'pmuttEncoder.default', 'fallback',
-              'objects without to_dict are not handed to the base encoder (which raises TypeError)', jm, fn)
+    # (1) no to_dict at all: json's contract for default() is the TypeError of the base class; (2) a to_dict that
+    # fails with AttributeError (an object half built): the pinned encoder turns that into the same TypeError, an
+    # encoder that looks the method up first lets the AttributeError through - either way default() must not return
+    r = call_default(Ie, Obj('plain object', None, closed=True))
+    run.check(isinstance(r, Raised) and r.exc == 'TypeError', 'PATH.encoder', 'pmuttEncoder.default', 'fallback',
+              'an object without to_dict is not handed to the base encoder (which raises TypeError): default() gives %s'
+              % show(r, 60), got_enc[0].module, got_enc[1], sig='no to_dict')
+    r = call_default(Ie, Obj('half-built object', None, closed=True, opaque_methods={'to_dict': no_to_dict}))
+    run.check(isinstance(r, Raised), 'PATH.encoder', 'pmuttEncoder.default', 'fallback',
+              'an object whose to_dict raises AttributeError is encoded as %s instead of being refused' % show(r, 60),
+              got_enc[0].module, got_enc[1], sig='to_dict raises')
 
 
 J_ = 'pmutt/io/json.py'
@@ -732,5 +803,85 @@ MUTANTS = [
      'edits': [('pmutt/reaction/__init__.py',
                 "        json_obj['transition_state'] = json_to_pmutt(\n            json_obj['transition_state'])\n",
                 "        json_obj['transition_state'] = [\n            json_to_pmutt(ts) for ts in json_obj['transition_state']]\n")]},
+]
+# ---- white-box review, round 2: one per new instance
+R_ = 'pmutt/reaction/__init__.py'
+V_ = 'pmutt/statmech/vib.py'
+MUTANTS += [
+    {'name': 'the encoder swallows objects without to_dict (returns None)', 'expect': ('PATH.encoder', 'pmuttEncoder.default'),
+     'edits': [(J_, "            super().default(o)\n", "            return None\n")]},
+    {'name': 'omkm BEP.to_dict writes the ids of its cleavage reactions (the decoded reaction registers itself again)',
+     'expect': ('TABLE.roundtrip', 'BEP'),
+     'edits': [('pmutt/omkm/reaction.py',
+                "        obj_dict['direction'] = self.direction\n        return obj_dict\n\n    def _get_bep_template",
+                "        obj_dict['direction'] = self.direction\n"
+                "        obj_dict['cleavage_reactions'] = [getattr(r, 'id', r) for r in self.cleavage_reactions]\n"
+                "        return obj_dict\n\n    def _get_bep_template")]},
+    {'name': 'omkm BEP.to_dict writes the ids of its synthesis reactions', 'expect': ('TABLE.roundtrip', 'BEP'),
+     'edits': [('pmutt/omkm/reaction.py',
+                "        obj_dict['direction'] = self.direction\n        return obj_dict\n\n    def _get_bep_template",
+                "        obj_dict['direction'] = self.direction\n"
+                "        obj_dict['synthesis_reactions'] = [getattr(r, 'id', r) for r in self.synthesis_reactions]\n"
+                "        return obj_dict\n\n    def _get_bep_template")]},
+    {'name': 'Reactions.from_dict shares the species of the same name between the reactions',
+     'expect': ('TABLE.roundtrip', 'Nasa'),
+     'edits': [(R_, "            json_to_pmutt(reaction) for reaction in json_obj['reactions']\n        ]\n        return cls(**json_obj)\n\n\ndef _parse_reaction_state",
+                "            json_to_pmutt(reaction) for reaction in json_obj['reactions']\n        ]\n"
+                "        species = {}\n"
+                "        for reaction in json_obj['reactions']:\n"
+                "            reaction.reactants = [species.setdefault(sp.name, sp) for sp in reaction.reactants]\n"
+                "            reaction.products = [species.setdefault(sp.name, sp) for sp in reaction.products]\n"
+                "        return cls(**json_obj)\n\n\ndef _parse_reaction_state")]},
+    {'name': 'PhaseDiagram.from_dict shares the unnamed species (keyed by name, all None)',
+     'expect': ('TABLE.roundtrip', 'StatMech'),
+     'edits': [('pmutt/reaction/phasediagram.py',
+                "            json_to_pmutt(reaction) for reaction in json_obj['reactions']\n        ]\n        return cls(**json_obj)\n",
+                "            json_to_pmutt(reaction) for reaction in json_obj['reactions']\n        ]\n"
+                "        species = {}\n"
+                "        for reaction in json_obj['reactions']:\n"
+                "            reaction.products = [species.setdefault(sp.name, sp) if sp.name is None else sp\n"
+                "                                 for sp in reaction.products]\n"
+                "            reaction.reactants = [species.setdefault(sp.name, sp) if sp.name is None else sp\n"
+                "                                  for sp in reaction.reactants]\n"
+                "        return cls(**json_obj)\n")]},
+    {'name': 'DebyeVib remembers the last temperature in an attribute of its own (generic to_dict writes it)',
+     'expect': ('TABLE.decode', 'DebyeVib'),
+     'edits': [(V_, "        vib_dimless = self.debye_temperature / T\n        integral = quad(",
+                "        vib_dimless = self.debye_temperature / T\n        self._last_T = T\n        integral = quad(")]},
+    {'name': 'IdealGasEOS.get_V counts its calls in an attribute (generic to_dict writes it)',
+     'expect': ('TABLE.decode', 'IdealGasEOS'),
+     'edits': [('pmutt/eos/__init__.py', "        return n * c.R('m3 bar/mol/K') * T / P\n",
+                "        self.n_calls = getattr(self, 'n_calls', 0) + 1\n        return n * c.R('m3 bar/mol/K') * T / P\n")]},
+    {'name': 'HarmonicVib.to_dict writes the wavenumbers the model computes with (imaginary mode dropped/replaced)',
+     'expect': ('TABLE.roundtrip', 'HarmonicVib'),
+     'edits': [(V_, "            'vib_wavenumbers': list(self.vib_wavenumbers),\n            'imaginary_substitute'",
+                "            'vib_wavenumbers': list(self._valid_vib_wavenumbers),\n            'imaginary_substitute'")]},
+    {'name': 'QRRHOVib.to_dict writes the wavenumbers the model computes with', 'expect': ('TABLE.roundtrip', 'QRRHOVib'),
+     'edits': [(V_, "            'vib_wavenumbers': list(self.vib_wavenumbers),\n            'Bav'",
+                "            'vib_wavenumbers': list(self._valid_vib_wavenumbers),\n            'Bav'")]},
+    {'name': 'SurfaceReaction.to_dict writes beta only when it is "specified" (truthiness: 0. is dropped)',
+     'expect': ('TABLE.roundtrip', 'SurfaceReaction'),
+     'edits': [('pmutt/omkm/reaction.py', "        obj_dict['beta'] = self.beta\n",
+                "        if self.beta:\n            obj_dict['beta'] = self.beta\n")]},
+    {'name': 'ChemkinReaction.to_dict writes beta only when it is "specified"', 'expect': ('TABLE.roundtrip', 'ChemkinReaction'),
+     'edits': [(R_, "        obj_dict['beta'] = self.beta\n",
+                "        if self.beta:\n            obj_dict['beta'] = self.beta\n")]},
+]
+MUTANTS += [
+    {'name': 'EmpiricalBase.to_dict forgets the model kept inside the species', 'expect': ('TABLE.roundtrip', 'Nasa'),
+     'edits': [('pmutt/empirical/__init__.py', "            obj_dict['model'] = self.model.to_dict()\n",
+                "            self.model.to_dict()\n            obj_dict['model'] = None\n")]},
+    {'name': 'RigidRotor.to_dict writes the geometry as nonlinear whatever it is', 'expect': ('TABLE.roundtrip', 'RigidRotor'),
+     'edits': [('pmutt/statmech/rot.py', "            'geometry': self.geometry,\n            'rot_temperatures'",
+                "            'geometry': 'nonlinear',\n            'rot_temperatures'")]},
+]
+# to be armed once the interpreter gives arrays of Python ints an integer element type (REQ2_C11 item 1): today the
+# model has one number type and the mutant is not seen
+MUTANTS_PENDING_INTERPRETER = [
+    {'name': 'Reaction keeps reactants_stoich as a numpy array (list() of it holds np.int64)',
+     'expect': ('TABLE.encode', 'Reaction'),
+     'edits': [(R_, "        val = _check_iterable_attr(val)\n        self._reactants_stoich = val\n",
+                "        val = _check_iterable_attr(val)\n        if val is not None:\n            val = np.array(val)\n"
+                "        self._reactants_stoich = val\n")]},
 ]
 EQUIV = []
